@@ -14,7 +14,7 @@ def run(ctx):
     n = 10 if not ctx.thorough else 60
     js = jobs.make_jobs(ctx.rng, optimizers.names(), ["cont", "cont-sym", "cont-zero", "cont-scalars", "multiobj", "multiobj", "disc", "binary", "mixed", "perm", "perm"], n,
                         modes=("serial", "serial", "thread") if not ctx.thorough else ("serial", "thread", "process"), max_cycles_choices=(1, 2, 3), multi=True)
-    ctx.rule("all exported optimizers × tasks (continuous, multi-objective with random non-negative weights, discrete/binary/mixed/permutation for the pairs that run today) × 4 single + 2 multi objectives × min/max × seeds × modes; a sixth of the runs on an instance that has just solved another task (same space and seed, other objective/direction); half of the weighted tasks re-weighted after construction and use; "
+    ctx.rule("all exported optimizers × tasks (continuous, multi-objective with random non-negative weights, discrete/binary/mixed/permutation for the pairs that run today) × 4 single + 2 multi objectives × min/max × seeds × modes; a sixth of the runs on an instance that has just solved another task (same space and seed, other objective/direction); half of the weighted tasks re-weighted after construction and use; a tenth with an objective that overwrites its argument after reading it; "
              "for every reported agent the harness re-evaluates objective(position) (and np.dot with the weights) and the documented fitness formula and compares bit-for-bit; a case = one run; "
              "non-trivial = result with ≥ 2 generations")
     # a sixth of the runs use an optimizer instance that has just solved another task on the same space with the same seed
@@ -30,6 +30,11 @@ def run(ctx):
             j["weights_initial"] = [ctx.rng.choice([0.0, 0.25, 1.0, 3.0]) for _ in j["weights"]]
             j["weights_via"] = ctx.rng.choice(["assign", "copy"])
             j["kind"] = j["kind"] + "+reweighted-task"
+    # a tenth of the runs use an objective that overwrites its argument after reading it (scratch-space objectives): the reported position must still
+    # be the evaluated one, i.e. the library must not hand the objective the very list it stores in the agent
+    for j in ctx.rng.sample(js, len(js) // 10):
+        j["scribble"] = True
+        j["kind"] = j["kind"] + "+argument-overwriting-objective"
     results = pmap(trace.run_traced, js)
     C01.judge(ctx, results, ["C02"])
 
